@@ -755,6 +755,8 @@ theorem saveString_spec {d d1 : Doc} {s : List Byte} {n : Nat}
     show strBytesL _ x.id = s
     rw [hmap, Doc.strBytes, find_id_of_nodup hnd hx]; exact hb
   · rename_i hfind
+    split at h
+    · simp only [Prod.mk.injEq] at h; exact absurd h.1 (by simp)
     generalize hal : d.pl.alloc (s.length + d.strOverhead) = r at h
     obtain ⟨ok, pl⟩ := r
     simp only at h
